@@ -47,7 +47,16 @@ def record(ck, c, stream):
         if len(ex) == len(rs):
             gate_bad = S.cmp_gate(c, [t for _, t in rs])
         else:
-            gate_bad = ['%d tests executed by nanoc, %d by the reference' % (len(ex), len(rs))]
+            # not every shadow block was run: say what that did to the gate
+            gate_bad = ['%d shadow blocks executed by nanoc, %d in the program (reference)' % (len(ex), len(rs))]
+            falsein = [c.order_names[i] for i, (_, t) in enumerate(rs) if not all(t)]
+            if falsein and c.r_rc == 0:
+                gate_bad.append('a shadow assertion is false (blocks of %s) but nanoc exits 0' % falsein)
+            if falsein and c.r_binary:
+                gate_bad.append('a shadow assertion is false (blocks of %s) but an executable is left at the output path' % falsein)
+            named = [t[0] for t in c.r_verbose.get('tests', []) if t[2] == 'FAILED']
+            if falsein and sorted(named) != sorted(falsein):
+                gate_bad.append('failing blocks %s, named by nanoc: %s' % (falsein, named))
         nfalse = sum(1 for _, t in rs for x in t if not x)
         ck.extra['false_assertions_per_case'][min(nfalse, 9)] += 1
         ck.count(c.s_src, True)
@@ -127,6 +136,24 @@ def skip_extern_case(ck, b, nv3):
     ck.extra['skip_extern_case'] = 'ok' if not bad else bad
 
 
+def module_own_block_case(ck, b):
+    """a false assertion in the shadow block that the IMPORTED MODULE has for its own function: is the program refused?"""
+    key = 'c06:module-shadow-blocks-never-run'
+    with langlib.Work('c06mod') as d:
+        open(os.path.join(d, 'mod.nano'), 'w').write(W.MODULE_OWN_BLOCK['mod'])
+        sp = os.path.join(d, 's.nano'); open(sp, 'w').write(W.MODULE_OWN_BLOCK['main'])
+        outp = os.path.join(d, 's.out')
+        rc, o, e = S.run_nanoc_verbose(b, sp, outp, d, 200)
+        binary = os.path.exists(outp)
+    ck.count(W.MODULE_OWN_BLOCK['main'] + W.MODULE_OWN_BLOCK['mod'], True)
+    ran = b'Testing f1... ' in o
+    ck.extra['module_own_block'] = dict(rc=rc, binary=binary, module_block_executed=ran)
+    if rc == 0 or binary:
+        ck.fail(key, 'false assertion in the imported module\'s own shadow block: nanoc rc=%s binary=%s, block executed: %s' % (rc, binary, ran),
+                dict(source=W.MODULE_OWN_BLOCK['main'], module_source=W.MODULE_OWN_BLOCK['mod'], a_source='', sprog='', a_sexp='', order=['main'],
+                     real=dict(rc=rc, binary=binary, stdout=o.decode('latin1')[-1500:], stderr=e.decode('latin1')[-600:])))
+
+
 def run(ck):
     b = ck.build('plain')
     for k in ('dropped', 'status', 'clash', 'modes', 'features', 'apart', 'ref_unavailable', 'false_assertions_per_case', 'gate_outcomes'):
@@ -142,8 +169,9 @@ def run(ck):
     for c in wit:
         record(ck, c, 'witness')
     skip_extern_case(ck, b, nv3)
+    module_own_block_case(ck, b)
     # corpus: iteration-dependent assertions (false in a non-final iteration, true in the last one, ...): must pass the check
-    corp = [S.hand_case(k, p, sh) for k, (p, sh) in sorted(W.CORPUS.items())]
+    corp = [W.corpus_case(S, k) for k in sorted(W.CORPUS)]
     S.run_models(nv3, nvl, corp)
     S.run_real(b, corp, 'c06c', want_native=False)
     for c in corp:
@@ -156,9 +184,10 @@ def run(ck):
     # 2. main stream: all placements of the failing assertion; some functions lose their shadow block
     cfg = S.stream_cfg(openk)
     n = 1200 if ck.thorough else 108
-    cases = S.build_cases(ck, nvl, [ck.seed * 611953 + i for i in range(n)], cfg, S.MUTATIONS + ['none'] * 3, 'g%d' % ck.seed, drop_shadow_prob=0.12,
-                          iter_prob=(0.85, 0.25))
+    cases = S.build_cases(ck, nvl, [ck.seed * 611953 + i for i in range(n)], cfg, S.MUTATIONS + ['none'] * 3 + S.LAYOUT_MUTATIONS, 'g%d' % ck.seed, drop_shadow_prob=0.12,
+                          iter_prob=(0.85, 0.25), multi_prob=0.45, import_prob=0.3)
     S.count_iter(ck, cases)
+    S.count_layout(ck, cases)
     S.run_models(nv3, nvl, cases)
     S.run_real(b, cases, 'c06m', want_native=False)
     for c in cases:
@@ -187,7 +216,7 @@ def run(ck):
     ck.cov['rule'] = ('one case = program + shadow blocks compiled by the real nanoc to a fresh output path; expected gate from the reference '
                       'semantics running the same statements; non-trivial = the reference run is defined; distinct = distinct source. '
                       'Failing assertion planted: ' + ', '.join(S.MUTATIONS))
-    for k in ('dropped', 'status', 'clash', 'modes', 'features', 'apart', 'ref_unavailable', 'false_assertions_per_case', 'gate_outcomes', 'iteration_dependent'):
+    for k in ('dropped', 'status', 'clash', 'modes', 'features', 'apart', 'ref_unavailable', 'false_assertions_per_case', 'gate_outcomes', 'iteration_dependent', 'block_layout'):
         ck.extra[k] = dict(ck.extra.get(k, {}))
     ck.trusted += ['Lang/Ref.v as a faithful transcription of docs/SPECIFICATION.md sections 4-8 (reviewed by hand)',
                    'extraction ExtrOcamlBasic only; extract/nvio.ml, nvio_z.ml, c03_driver.ml',
@@ -202,6 +231,7 @@ def replay(ck, d):
     c = S.Case()
     c.id, c.mode, c.seed, c.tag, c.feat, c.picked = d.get('case', 'replay'), d.get('mode', '?'), 0, 'replay', {}, []
     c.s_src, c.a_src, c.sprog, c.a_sexp, c.order_names = d['source'], d['a_source'], d['sprog'], d['a_sexp'], d['order']
+    c.mod_src = d.get('module_source')
     if c.a_sexp:
         S.run_models(nv3, nvl, [c])
     S.run_real(b, [c], 'c06r', want_native=False)
